@@ -5,18 +5,17 @@
 From Rules Require Export Syntax.
 Open Scope N_scope.
 
-Definition tSP : tok := (K_SP, [32]).
-Definition tLP : tok := (K_LP, [40]).
-Definition tRP : tok := (K_RP, [41]).
-Definition tPR : tok := (K_PR, [112; 114]).
-Definition tDOT : tok := (K_DOT, [46]).
-Definition tMINUS : tok := (K_MINUS, [45]).
-Definition tLB : tok := (K_LB, [91]).
-Definition tRB : tok := (K_RB, [93]).
-Definition tCOMMA : tok := (K_COMMA, [44]).
-Definition tNOT : tok := (K_NOT, [110; 111; 116]).
-Definition tNULL : tok := (K_NULL, [110; 117; 108; 108]).
-Definition t_and : text := [97; 110; 100].
+Definition tSP : tok := (K_SP, []).
+Definition tLP : tok := (K_LP, []).
+Definition tRP : tok := (K_RP, []).
+Definition tPR : tok := (K_PR, []).
+Definition tDOT : tok := (K_DOT, []).
+Definition tMINUS : tok := (K_MINUS, []).
+Definition tLB : tok := (K_LB, []).
+Definition tRB : tok := (K_RB, []).
+Definition tCOMMA : tok := (K_COMMA, []).
+Definition tNOT : tok := (K_NOT, []).
+Definition tNULL : tok := (K_NULL, []).
 
 Definition op_kind (op : cmpop) : tkind :=
   match op with
